@@ -61,7 +61,7 @@ fn c14_q_xls_ref_row98_l2() {
 #[kani::proof]
 #[kani::unwind(12)]
 #[kani::stub(crate::utils::push_column, crate::k_kcommon::model_push_column_l1)]
-fn c14_q_xls_ref_row65534_l1() {
+fn c14_t_xls_ref_row65534_l1() {
     ptg_ref_case::<0x64, 65534, 5, 0, 26, 1>()
 }
 #[kani::proof]
@@ -283,7 +283,7 @@ fn c14_t_xls_unary_paren() {
 #[kani::proof]
 #[kani::unwind(16)]
 #[kani::stub(crate::utils::push_column, crate::k_kcommon::model_push_column_l1)]
-fn c14_q_xls_percent_uplus() {
+fn c14_t_xls_percent_uplus() {
     let c1: u16 = kani::any();
     kani::assume(c1 < 26);
     let w1 = colw(c1, true, false);
